@@ -347,6 +347,20 @@ fn call(f: &str, a: &[Value]) -> Value {
                 Err(e) => json!({"ok": false, "placeholder_len": ph.len(), "signed_len": 0, "err": e.to_string()}),
             }
         }
+        "vec_compare" => json!(c2pa::verif_hooks::merkle::vec_compare(s(&a[0]).as_bytes(), s(&a[1]).as_bytes())),
+        // C01: DataHash generated over d0 (real SHA-256), verified against d1; args = [d0, d1, [[start, len], ...]]
+        "data_hash_tamper" => {
+            use c2pa::assertions::DataHash;
+            let d0: Vec<u8> = s(&a[0]).chars().map(|c| c as u32 as u8).collect();
+            let d1: Vec<u8> = s(&a[1]).chars().map(|c| c as u32 as u8).collect();
+            let mut dh = DataHash::new("jumbf manifest", "sha256");
+            for r in a[2].as_array().unwrap() {
+                dh.add_exclusion(c2pa::HashRange::new(r[0].as_u64().unwrap(), r[1].as_u64().unwrap()));
+            }
+            let g = dh.gen_hash_from_stream(&mut std::io::Cursor::new(d0));
+            let v = dh.verify_stream_hash(&mut std::io::Cursor::new(d1), None);
+            json!({"gen_ok": g.is_ok(), "verify_ok": v.is_ok()})
+        }
         "merkle_scenario" => merkle_scenario(a),
         // sync vs async twins of the two resolver wrappers on the same script
         "redirect_chain_both" => {
